@@ -1,5 +1,5 @@
 """C08 — b64filter preserves document boundaries and content around the child."""
-import base64, itertools
+import os, base64, itertools
 import pvlib
 from pvlib import hx, unhx
 
@@ -151,6 +151,30 @@ def run_small(ctx):
             "status": st, "doc_index": k, "stderr": err.decode(errors="replace")[-300:]},
             summary=f"b64filter with an identity child on {len(wl) - 1} documents, stdin stalling around the queue-page multiples: status {st}, "
                     f"{len(gl) - 1} lines out, first wrong document {k}")
+
+    # the transport of the decoded documents to the child and of the answers to stdout under SHORT write(2) counts (a pipe that takes
+    # part of a large write: a stopped and continued process, a slow reader): the documents must come back exactly as without them
+    shim = os.path.join(ctx.bdir, "harness", "faults_preload.so")
+    docs_ = [b"small\n", b"", bytes(33 + (i * 7) % 90 for i in range(300000)).replace(b"!", b"\n"), b"\n\n", b"no final newline", b"\x00nul\x00\n" * 2000, b"last\n"]
+    data = b"".join(base64.b64encode(d) + b"\n" for d in docs_)
+    for prof in ("40:0", "100:0"):
+        for ms in ("1000", "70000"):
+            rep = os.path.join(ctx.tmp, "rep8.txt")
+            if os.path.exists(rep):
+                os.unlink(rep)
+            e = pvlib.san_env({"LD_PRELOAD": shim, "PV_FAULT_RANDOM": f"{ctx.seed}:{prof}", "PV_FAULT_MAXSHORT": ms, "PV_FAULT_REPORT": rep, "PV_DELAY_ONLY": "b64filter"})
+            e["ASAN_OPTIONS"] += ":verify_asan_link_order=0"
+            st, out, err = pvlib.run_tool([ctx.bin("b64filter"), "cat"], data, env=e, timeout=120)
+            ctx.count("b64filter.short-writes", 1, [(prof, ms)])
+            if st != 0 or out != data:
+                ol = out.split(b"\n")[:-1]
+                k = next((i for i, (p_, q_) in enumerate(zip(ol, data.split(b"\n"))) if p_ != q_), min(len(ol), len(docs_)))
+                pvlib.report_violation(ctx, f"b64filter-short-writes:{prof}:{ms}", {"argv": ["b64filter", "cat"], "stdin_hex": hx(data)[:300000], "status": st,
+                                       "env": {"LD_PRELOAD": "harness/faults_preload.so", "PV_FAULT_RANDOM": f"{ctx.seed}:{prof}", "PV_FAULT_MAXSHORT": ms},
+                                       "first_wrong_document": k, "stderr": err.decode(errors="replace")[-300:]},
+                                       summary=f"b64filter cat with {prof.split(':')[0]}% of its read/write calls returning short counts (at most {ms} bytes): status {st}, "
+                                               f"{len(ol)} of {len(docs_)} documents out, document {k} differs")
+                return
 
 
 def replay(ctx, rp):
